@@ -955,9 +955,19 @@ func (tkn *Tokenizer) scanString(delim uint16, typ int) (int, []byte) {
 func (tkn *Tokenizer) scanCommentType1(prefix string) (int, []byte) {
 	buffer := &bytes2.Buffer{}
 	buffer.WriteString(prefix)
+	// PostgreSQL ends a "--" comment at a carriage return as well as at a line feed (scan.l: non_newline is [^\n\r]);
+	// MySQL ends "-- " and "#" comments at a line feed only. The line terminator is kept in the comment token.
+	endsAtCarriageReturn := prefix == "--" && tkn.IsPostgreSQL()
 	for tkn.lastChar != eofChar {
 		if tkn.lastChar == '\n' {
 			tkn.consumeNext(buffer)
+			break
+		}
+		if endsAtCarriageReturn && tkn.lastChar == '\r' {
+			tkn.consumeNext(buffer)
+			if tkn.lastChar == '\n' {
+				tkn.consumeNext(buffer)
+			}
 			break
 		}
 		tkn.consumeNext(buffer)
@@ -968,12 +978,26 @@ func (tkn *Tokenizer) scanCommentType1(prefix string) (int, []byte) {
 func (tkn *Tokenizer) scanCommentType2() (int, []byte) {
 	buffer := &bytes2.Buffer{}
 	buffer.WriteString("/*")
+	// PostgreSQL block comments nest (SQL standard); MySQL ends the comment at the first "*/"
+	nests := tkn.IsPostgreSQL()
+	depth := 1
 	for {
 		if tkn.lastChar == '*' {
 			tkn.consumeNext(buffer)
 			if tkn.lastChar == '/' {
 				tkn.consumeNext(buffer)
-				break
+				depth--
+				if depth == 0 || !nests {
+					break
+				}
+			}
+			continue
+		}
+		if nests && tkn.lastChar == '/' {
+			tkn.consumeNext(buffer)
+			if tkn.lastChar == '*' {
+				tkn.consumeNext(buffer)
+				depth++
 			}
 			continue
 		}
